@@ -344,7 +344,7 @@ def _raw(rng, hashk):
 
 
 def gen(rng, tier):
-    n = 1 if tier == "quick" else 40
+    n = 1 if tier == "quick" else 20
     cases = []
     for _ in range(60 * n):
         for kind in KINDS:
@@ -448,7 +448,7 @@ SPEC = Spec(
          "without cnonce, response for another password, one-byte change in each response field), 60 each with the "
          "transparent hash (compared with the model) and 25 each with real MD5/SHA-1 (oracle only), 1500 random byte-level "
          "mutations (flip/delete/insert, 1-3 bytes) of a raw honest response (oracle only), 100 issued challenges; "
-         "thorough = 40x; non-trivial = anything but an unmodified honest response that was denied; distinct by (case, observation)",
+         "thorough = 20x; non-trivial = anything but an unmodified honest response that was denied; distinct by (case, observation)",
     trusted=["hand-written model coq/C48/Model.v of the acceptance logic on parsed fields (tied by this correspondence run)",
              "the regular-expression field parser of decode() is not modelled (raw mutations go through the oracle only)",
              "MD5/SHA-1: Section variable HX with the hypothesis that it is injective (ideal hash); base64: Section variables "
